@@ -10,6 +10,7 @@ pub mod c03;
 pub mod c04;
 pub mod c05;
 pub mod c06;
+pub mod c07;
 pub mod probe;
 
 pub struct Entry {
@@ -27,7 +28,7 @@ pub struct Entry {
 }
 
 pub fn all() -> Vec<Entry> {
-    vec![c01::entry(), c02::entry(), c03::entry(), c04::entry(), c05::entry(), c06::entry()]
+    vec![c01::entry(), c02::entry(), c03::entry(), c04::entry(), c05::entry(), c06::entry(), c07::entry()]
 }
 
 pub fn lookup(id: &str) -> Option<Entry> {
